@@ -7,7 +7,7 @@ import (
 	"verifharness/fakecmd"
 )
 
-var Families = []string{"gating", "restart", "shutdown", "exiton", "manual", "health"}
+var Families = []string{"gating", "restart", "shutdown", "exiton", "manual", "health", "unsat"}
 
 var conds = []string{"process_completed", "process_completed_successfully", "process_healthy", "process_log_ready", "process_started"}
 var policies = []string{"no", "always", "on_failure", "exit_on_failure"}
@@ -72,6 +72,8 @@ func Generate(family string, idx int, seed int64) *Scenario {
 		genManual(r, sc)
 	case "health":
 		genHealth(r, sc)
+	case "unsat":
+		genUnsat(r, sc)
 	default:
 		genGating(r, sc)
 	}
@@ -130,7 +132,7 @@ func scriptFor(r *rand.Rand, sc *Scenario, ps *ProcSpec, persistentPct int) {
 		if chance(r, persistentPct) {
 			b = sigB(pick(r, 0, 0, 1, 3))
 		} else {
-			b = autoB(pick(r, 0, 1, 2, 4, 8, 15), pick(r, 0, 0, 0, 1, 2, 42))
+			b = autoB(pick(r, 0, 1, 2, 4, 8, 15), pick(r, 0, 0, 0, 1, 2, 42, -1))
 		}
 		if chance(r, 4) {
 			b.StartErr = true
@@ -215,7 +217,7 @@ func genRestart(r *rand.Rand, sc *Scenario) {
 	var bs []fakecmd.Behaviour
 	n := 1 + r.Intn(5)
 	for a := 0; a < n; a++ {
-		b := autoB(pick(r, 0, 1, 3), pick(r, 0, 1, 0, 2))
+		b := autoB(pick(r, 0, 1, 3), pick(r, 0, 1, 0, 2, -1))
 		if a == n-1 && chance(r, 40) {
 			b = sigB(pick(r, 0, 1, 3))
 		}
@@ -302,10 +304,18 @@ func genShutdown(r *rand.Rand, sc *Scenario) {
 			}
 		}
 	}
+	if chance(r, 20) {
+		// a disabled process that is started explicitly before the shutdown
+		x := baseProc("x")
+		x.Deferred = true
+		sc.Cfg.Procs = append(sc.Cfg.Procs, x)
+		sc.Scripts["x"] = []fakecmd.Behaviour{sigB(pick(r, 0, 2))}
+		sc.Steps = append(sc.Steps, Step{When: When{Tick: 1 + r.Intn(4)}, Do: Op{Kind: "start", P: "x"}})
+	}
 	target := sc.Cfg.Procs[r.Intn(len(sc.Cfg.Procs))].Name
 	switch r.Intn(4) {
 	case 0:
-		sc.Steps = append(sc.Steps, Step{When: When{Tick: r.Intn(30)}, Do: Op{Kind: "shutdown"}})
+		sc.Steps = append(sc.Steps, Step{When: When{Tick: 6 + r.Intn(30)}, Do: Op{Kind: "shutdown"}})
 	case 1:
 		sc.Steps = append(sc.Steps, Step{When: When{Event: pick(r, "Launch", "Exit", "Started", "Spawn", "State"), P: target, Nth: 1 + r.Intn(2)}, Do: Op{Kind: "shutdown"}, DelayTick: r.Intn(3)})
 	default:
@@ -373,9 +383,13 @@ func genManual(r *rand.Rand, sc *Scenario) {
 		ps.Policy = "always"
 		bs = []fakecmd.Behaviour{autoB(1, 1), autoB(2, 0), sigB(1)}
 	}
+	if chance(r, 20) {
+		ps.Deferred = true // disabled process, only started explicitly
+	}
+	sc.Cfg.Ordered = chance(r, 40)
 	sc.Cfg.Procs = append(sc.Cfg.Procs, ps)
 	sc.Scripts["a"] = bs
-	if chance(r, 35) {
+	if chance(r, 35) && !ps.Deferred {
 		// a is pending on a dependency for a while
 		dep := baseProc("z")
 		sc.Cfg.Procs = append([]ProcSpec{dep}, sc.Cfg.Procs...)
@@ -451,4 +465,109 @@ func genHealth(r *rand.Rand, sc *Scenario) {
 		sc.Observe = append(sc.Observe, "a")
 	}
 	sc.EndTick = t + 50
+}
+
+// genUnsat: a dependency fails to meet the declared condition in every way the statement of C05 lists
+// (exit code, start error, bad working dir, stopped by the user while running / pending / restarting,
+// exits before its ready line or first probe success), with transitive dependents behind it.
+func genUnsat(r *rand.Rand, sc *Scenario) {
+	root := baseProc("a")
+	cond := pick(r, "process_completed_successfully", "process_healthy", "process_log_ready", "process_started", "process_completed_successfully", "process_log_ready")
+	mode := pick(r, "exit", "startErr", "badDir", "stopRunning", "stopPending", "stopBackoff", "exitEarly", "neverReady", "fatalProbe", "ok")
+	var b fakecmd.Behaviour
+	switch cond {
+	case "process_healthy":
+		root.HasReadyProbe = true
+		root.Threshold = pick(r, 1, 2)
+	case "process_log_ready":
+		root.HasReadyLine = true
+	}
+	b = sigB(pick(r, 0, 1, 3))
+	switch mode {
+	case "exit":
+		b = autoB(pick(r, 1, 3, 8), pick(r, 1, 2, -1, 42))
+	case "startErr":
+		b.StartErr = true
+	case "badDir":
+		root.BadWorkdir = true
+	case "stopRunning":
+		sc.Steps = append(sc.Steps, Step{When: When{Tick: pick(r, 3, 6, 10)}, Do: Op{Kind: pick(r, "stop", "stop", "restart"), P: "a"}})
+	case "stopPending":
+		z := baseProc("z")
+		sc.Cfg.Procs = append(sc.Cfg.Procs, z)
+		sc.Cfg.Edges = append(sc.Cfg.Edges, Edge{P: "a", K: "z", Cond: "process_completed"})
+		sc.Scripts["z"] = []fakecmd.Behaviour{autoB(pick(r, 10, 20), 0)}
+		sc.Steps = append(sc.Steps, Step{When: When{Tick: pick(r, 2, 5)}, Do: Op{Kind: "stop", P: "a"}})
+	case "stopBackoff":
+		root.Policy = pick(r, "on_failure", "always")
+		b = autoB(pick(r, 1, 2), pick(r, 1, 2))
+		sc.Steps = append(sc.Steps, Step{When: When{Gate: "run.backoff", P: "a", Nth: 1}, Do: Op{Kind: pick(r, "stop", "shutdown"), P: "a"}, HoldUntil: "opDone", HoldMs: 80})
+	case "exitEarly":
+		b = autoB(pick(r, 1, 2), pick(r, 0, 1))
+	case "neverReady":
+		sc.Steps = append(sc.Steps, Step{When: When{Tick: pick(r, 8, 15)}, Do: Op{Kind: pick(r, "stop", "shutdown", "restart"), P: "a"}})
+	case "fatalProbe":
+		root.HasReadyProbe = true
+		root.Threshold = pick(r, 1, 2)
+		cond = "process_healthy"
+		root.HasReadyLine = false
+		for k := 0; k < root.Threshold; k++ {
+			sc.Steps = append(sc.Steps, Step{When: When{Tick: 3 + 2*k}, Do: Op{Kind: "probe", P: "a", Ok: false}})
+		}
+	case "ok":
+	}
+	if root.HasReadyLine {
+		switch mode {
+		case "ok":
+			b = withReady(b, pick(r, 1, 3))
+		case "stopRunning":
+			if chance(r, 50) {
+				b = withReady(b, pick(r, 12, 20)) // would become ready, but only after the stop
+			}
+		case "exit":
+			if chance(r, 40) {
+				b = withReady(b, 0)
+			}
+		}
+	}
+	if root.HasReadyProbe && mode != "fatalProbe" {
+		ok := mode == "ok" || (mode == "exit" && chance(r, 40))
+		if ok || chance(r, 30) {
+			sc.Steps = append(sc.Steps, Step{When: When{Event: "Launch", P: "a", Nth: 1}, Do: Op{Kind: "probe", P: "a", Ok: ok}, DelayTick: 1})
+		}
+	}
+	sc.Cfg.Procs = append(sc.Cfg.Procs, root)
+	sc.Scripts["a"] = []fakecmd.Behaviour{b, autoB(2, 0)}
+	// transitive dependents
+	depth := 1 + r.Intn(3)
+	prev := "a"
+	for dI := 0; dI < depth; dI++ {
+		name := procNames[1+dI]
+		ps := baseProc(name)
+		c := cond
+		if dI > 0 {
+			c = pick(r, "process_completed_successfully", "process_completed", "process_started", "process_completed_successfully")
+		}
+		if chance(r, 25) {
+			ps.ExitOnSkipped = true
+		}
+		sc.Cfg.Procs = append(sc.Cfg.Procs, ps)
+		sc.Cfg.Edges = append(sc.Cfg.Edges, Edge{P: name, K: prev, Cond: c})
+		sc.Scripts[name] = []fakecmd.Behaviour{autoB(pick(r, 1, 3), pick(r, 0, 0, 1))}
+		if chance(r, 30) && dI > 0 {
+			// a second, slow dependency so that the failed one is resolved late
+			w := baseProc("w")
+			if sc.proc("w") == nil {
+				sc.Cfg.Procs = append(sc.Cfg.Procs, w)
+				sc.Scripts["w"] = []fakecmd.Behaviour{autoB(pick(r, 8, 14), 0)}
+			}
+			sc.Cfg.Edges = append(sc.Cfg.Edges, Edge{P: name, K: "w", Cond: "process_completed"})
+		}
+		prev = name
+	}
+	if chance(r, 20) {
+		sc.Steps = append(sc.Steps, Step{When: When{Tick: 25 + r.Intn(10)}, Do: Op{Kind: pick(r, "start", "restart"), P: procNames[1]}})
+	}
+	sc.Cfg.Ordered = chance(r, 30)
+	sc.EndTick = 50 + r.Intn(20)
 }
